@@ -144,3 +144,43 @@ def finish(ctx, res, level="model_checking"):
     print("%s %s: %d evaluations, %d real executions validated, %d TLC states, %d known-finding cases, %d new violation signature(s), %.1fs" % (
         ctx.prop, ctx.tier, res.evaluations, res.traces, res.states, sum(x[1] for x in hit.values()), nviol, wall))
     return 1 if nviol else 0
+
+
+def process_noise(k=0):
+    """Exercise other public APIs - including calls that raise half-way - so that state they might leave behind at module
+    or class level (rendering flags, numpy error state, id counters, module-level caches) is present when the observed call
+    runs. Called by the drivers before observations; it must never influence a correct implementation."""
+    try:
+        from mathy_core.parser import ExpressionParser
+        from mathy_core.expressions import AddExpression, ConstantExpression, VariableExpression, AbsExpression
+        from mathy_core.layout import TreeLayout
+        from mathy_core import problems
+        p = ExpressionParser()
+        t = p.parse("4x + 2y^3 - sgn(x)")
+        for f in (lambda: t.terminal_text, lambda: t.to_math_ml(), lambda: t.evaluate({"x": 1.5, "y": -2}), lambda: TreeLayout().layout(t),
+                  lambda: t.add_class("noise"), lambda: t.clear_classes(), lambda: problems.gen_binomial_times_monomial(),
+                  lambda: str(t), lambda: t.clone().all_changed()):
+            try:
+                f()
+            except BaseException:  # noqa
+                pass
+        broken = AddExpression(ConstantExpression(2), None)          # a node with a missing operand: every renderer raises on it
+        changed = AddExpression(ConstantExpression(2), VariableExpression("x"))
+        changed.all_changed()
+        for f in (lambda: broken.terminal_text, lambda: str(broken), lambda: broken.evaluate({}), lambda: broken.to_math_ml(), lambda: changed.terminal_text,
+                  lambda: t.evaluate({}), lambda: p.parse("4 +"), lambda: p.parse("(((1.2.3"), lambda: p.parse("x # y"), lambda: TreeLayout().layout(broken)):
+            try:
+                f()
+            except BaseException:  # noqa
+                pass
+        if k % 2 == 0:
+            q = ExpressionParser()
+            q.tokenizer.functions["abs"] = AbsExpression                # another parser in this process knows one more function
+            for text in ("abs(x)", "2abs(x - 1)", "abs"):
+                try:
+                    q.parse(text)
+                    q.tokenize(text)
+                except BaseException:  # noqa
+                    pass
+    except BaseException:  # noqa
+        pass
